@@ -288,7 +288,8 @@ func c07Specs(thorough bool) []c07Spec {
 	msgs := func(code string) []string {
 		low := strings.ToLower(strings.ReplaceAll(code, "_", " "))
 		return []string{"something happened", "", low + ": again", "404 Not Found: x", "418 I'm a teapot: blob unknown: y", "a: b: c", "né", "<body=8192>", "<body=8191>",
-			"100% of %s %d%v %[2]d %w %!(EXTRA) %"} // text that must never be used as a format string
+			"100% of %s %d%v %[2]d %w %!(EXTRA) %",                                            // text that must never be used as a format string
+			"ctl \x1b[31mred\x1b[0m nul\x00 bell\a vt\v del\x7f tag\U000E0001 quote\" back\\"} // characters Go quoting and JSON quoting write differently
 	}
 	details := []string{"", `{}`, `{"a":[1]}`, `"s"`, `{"id":9007199254740993,"big":1e400}`, `[1.10,2.0e0]`}
 	var out []c07Spec
@@ -343,7 +344,7 @@ func c07Check(r *vcore.Run) vcore.Coverage {
 		"details are compared as compacted JSON text (number spelling included)",
 	}
 	return vcore.Coverage{Evaluations: n, Nontrivial: int64(len(specs)), Exhaustive: true,
-		Rule: fmt.Sprintf("%d error specifications (19 codes incl. custom, lower-case, empty and a plain Go error x wrappers {none, fmt %%w, HTTP-status wrapper with 6 statuses quick / all of 400..599 thorough, fmt over HTTP wrapper} x 10 messages incl. status and code prefixes, body-limit sizes and % directives x 6 details incl. numbers float64 cannot hold) x %d carriers (GET, HEAD, PUT, POST, DELETE, list) x hops 1..3; evaluations = error round trips; non-trivial = specifications", len(specs)/len(c07Carriers), len(c07Carriers))}
+		Rule: fmt.Sprintf("%d error specifications (19 codes incl. custom, lower-case, empty and a plain Go error x wrappers {none, fmt %%w, HTTP-status wrapper with 6 statuses quick / all of 400..599 thorough, fmt over HTTP wrapper} x 10 messages incl. status and code prefixes, body-limit sizes, % directives and control characters x 6 details incl. numbers float64 cannot hold) x %d carriers (GET, HEAD, PUT, POST, DELETE, list) x hops 1..3; evaluations = error round trips; non-trivial = specifications", len(specs)/len(c07Carriers), len(c07Carriers))}
 }
 
 func c07Replay(r *vcore.Run, sub string, raw json.RawMessage) {
